@@ -5,6 +5,8 @@ import importlib
 TABLE = {
     'C02': ('harness.c02', lambda m, tier, only: m.main('C02', 'in', tier, only)),
     'C14': ('harness.c02', lambda m, tier, only: m.main('C14', 'out', tier, only)),
+    'C17': ('harness.c17', lambda m, tier, only: m.main('C17', tier, only)),
+    'C18': ('harness.c17', lambda m, tier, only: m.main('C18', tier, only)),
     'C07': ('harness.c07', lambda m, tier, only: m.main('C07', tier, only)),
 }
 
